@@ -34,7 +34,7 @@ ASSUMPTIONS = [
     "for unrolled array elements only absence of foreign options is asserted (whether a block on d reaches d_0 is not fixed by the property)",
 ]
 TIERS = {
-    "quick": {"runs": 12000, "chunk": 150, "wall": 100, "chunk_timeout": 400, "selftest": 10},
+    "quick": {"runs": 9000, "chunk": 125, "wall": 100, "chunk_timeout": 400, "selftest": 10},
     "thorough": {"runs": 160000, "chunk": 400, "wall": 800, "chunk_timeout": 900, "selftest": 16},
 }
 ISOLATE_RUNS = True
